@@ -86,8 +86,22 @@ class SpecFun:
         self.types = types or {}
 
 
+class ClassInvariant:
+    """Ownership-style class invariant: assumed at entry of the class's own methods (for `self`), proved at every exit.
+    Callers do not carry it.  Sound because (i) the private fields are written only inside the class (sole-writer scan),
+    (ii) the invariant is stable under the changes other code may make to the objects it mentions (stability lemma)."""
+
+    def __init__(self, klass, clauses, private=(), stable_under=None, props=()):
+        self.klass = klass
+        self.clauses = _clauses(clauses, props)
+        self.private = list(private)
+        self.stable_under = stable_under
+        self.props = tuple(props)
+
+
 class ContractDB:
     def __init__(self):
+        self.class_invariants = {}
         self.contracts = {}     # qualname -> Contract (default variant)
         self.variants = {}      # key -> Contract
         self.specfuns = {}
@@ -104,6 +118,9 @@ class ContractDB:
             self.contracts[qualname] = c
         return c
 
+    def class_invariant(self, klass, clauses, **kw):
+        self.class_invariants[klass] = ClassInvariant(klass, clauses, **kw)
+
     def specfun(self, name, params, body, **kw):
         self.specfuns[name] = SpecFun(name, params, body, **kw)
 
@@ -114,3 +131,4 @@ class ContractDB:
 DB = ContractDB()
 contract = DB.contract
 specfun = DB.specfun
+class_invariant = DB.class_invariant
